@@ -5,6 +5,8 @@ import (
 	"encoding/binary"
 	"fmt"
 	"io"
+	"runtime"
+	"runtime/debug"
 	"testing"
 	"time"
 
@@ -386,9 +388,14 @@ func TestC29(t *testing.T) {
 	})
 
 	// ---- B. round trips and mutations (rapid)
-	r.Checks(1500, 60000)
+	r.Checks(1500, 40000)
 	r.ShrinkTime(15 * time.Second)
 	rapid.Check(t, func(rt *rapid.T) {
+		// a flipped or hostile length word below 2 GiB makes the stream readers allocate what it announces (twice: ReadLengthed's
+		// buffer and EnsureRead's per-Read scratch buffer); hand that memory back before the next case so that parallel shards
+		// do not run the machine out of memory (resource hygiene only, no effect on verdicts)
+		defer c29ReleaseMemory()
+
 		m := genList().Draw(rt, "list")
 		ch := genChunking().Draw(rt, "chunking")
 
@@ -562,4 +569,13 @@ func TestC29(t *testing.T) {
 			r.Sample(map[string]any{"mode": mode, "list": descList(m), "chunking": ch.Name, "cuts": ch.Cuts, "eof_with_data": ch.EOFTog, "mutation": mut})
 		}
 	})
+}
+
+func c29ReleaseMemory() {
+	var ms runtime.MemStats
+	runtime.ReadMemStats(&ms)
+
+	if ms.HeapSys-ms.HeapReleased > 1<<30 {
+		debug.FreeOSMemory()
+	}
 }
